@@ -24,6 +24,14 @@ def hook(event, args):
 def main():
     names = sys.argv[1:]
     sys.addaudithook(hook)
+    late = os.environ.pop('VMON_LATE_DATA_DIR', None)
+    if late:
+        # the override is set only AFTER the package has been imported (a
+        # program that configures itself at start-up), before the first load
+        import pgradd.ThermoChem  # noqa
+        import pgradd.GroupAdd.Library  # noqa
+        import pgradd.GroupAdd.Scheme  # noqa
+        os.environ['pgradd_DATA_DIR'] = late
     from vmon.core import libs, digests
     out = {}
     for n in names:
